@@ -24,6 +24,17 @@ HW = {
     "routeros": "RouterOS RB4011", "pc": "PC",
 }
 
+# model strings as inventories write them, per vendor family (real product names; harness knowledge: each of them IS a box of that family)
+MODELS = {
+    "huawei": ["Huawei CE6870", "Huawei CE12800", "Huawei NE40E-X8", "Huawei S5700", "Huawei Quidway S5328C", "Huawei NE20E-S2F", "Huawei NE9000"],
+    "h3c": ["H3C S6800", "H3C S6850-56HF"], "optixtrans": ["Huawei OptiXtrans DC908"],
+    "cisco": ["Cisco Catalyst C3750", "Cisco Catalyst 2960", "Cisco 3850"], "nexus": ["Cisco Nexus 9336", "Cisco Nexus 3172"],
+    "iosxr": ["Cisco ASR 9000", "Cisco ASR9006", "Cisco ASR9K", "Cisco ASR-9001", "Cisco XRv 9000"],
+    "arista": ["Arista DCS-7368", "Arista DCS-7050SX3"], "aruba": ["Aruba AP-505", "Aruba AP-315"], "b4com": ["B4com CS4100", "B4com 4148"],
+    "juniper": ["Juniper MX960", "Juniper QFX5120", "Juniper EX4300"], "ribbon": ["Ribbon NPT", "Ribbon OPT9608"], "nokia": ["Nokia 7750", "Nokia SR-1s"],
+    "routeros": ["RouterOS RB4011", "Mikrotik CCR1036"], "pc": ["PC", "PC Mellanox", "PC Whitebox"],
+}
+
 
 def registry():
     init()
